@@ -120,6 +120,8 @@ def _compare_layout(sem, t, T, ct, path, aligned, out):
 def run_case(case, ctx):
     if case.get("reuse"):
         return _run_reuse(case, ctx)
+    if case.get("alias"):
+        return _run_alias(case, ctx)
     cs = common.load(case)
     _check_layout(case, ctx, cs, "Root", "SizeProbe")
 
@@ -203,13 +205,36 @@ def seq_cases(maxlen):
     return gen
 
 
+COUNT_SPELLINGS = {1: ["1", "0x1", "N1", "(N1)", "1u", "sizeof(uint8)"], 2: ["2", "0x2", "N1*2", "N1 + 1", "1 << 1", "sizeof(uint16)", "N2"], 3: ["3", "N1 + N2", "(N2 + 1)", "0x3", "N4 - 1"],
+                   4: ["4", "N2*2", "N4", "1 << 2", "sizeof(uint32)", "0x04", "(N2 << 1)"]}
+
+
+def _respell_counts(draw, t):
+    """Fixed counts written as constant expressions (#define names, arithmetic, sizeof): still fixed-size arrays."""
+    if t["k"] == "a":
+        if t["len"][0] == "fixed" and t["len"][1] in COUNT_SPELLINGS and draw(st.booleans()):
+            t["len"] = ["fixed", t["len"][1], draw(st.sampled_from(COUNT_SPELLINGS[t["len"][1]]))]
+        _respell_counts(draw, t["t"])
+    elif t["k"] == "p":
+        _respell_counts(draw, t["t"])
+    elif t["k"] == "st":
+        for f in t["fields"]:
+            _respell_counts(draw, f["t"])
+
+
 @st.composite
 def fixed_case(draw):
     bits = draw(st.integers(0, 3)) == 0
-    o = gens.opts(dynamic=False, bits=bits, void=False, max_depth=3, max_fields=5, hazard=False)
+    o = gens.opts(dynamic=False, bits=bits, void=False, max_depth=3, max_fields=5, hazard=draw(st.booleans()), bits_char=True, bits_odd=True, wide_bits=True)
     d = draw(gens.definition(o, root_kind=draw(st.sampled_from(["struct", "struct", "struct", "union"])) if not bits else "struct"))
     cfg = draw(gens.config())
-    return {"defs": d["defs"], "root": "Root", "cfg": cfg}
+    defs = d["defs"]
+    if draw(st.booleans()):
+        for dd in defs:
+            if dd["k"] == "structdef":
+                _respell_counts(draw, dd["t"])
+        defs = [{"k": "define", "n": "N1", "v": 1}, {"k": "define", "n": "N2", "v": "(N1 + 1)"}, {"k": "define", "n": "N4", "v": "0x4"}] + defs
+    return {"defs": defs, "root": "Root", "cfg": cfg}
 
 
 TAGS = ["item", "node", "hdr", "entry"]
@@ -326,6 +351,54 @@ def _tags_of(defs):
     return out
 
 
+def alias_cases():
+    from props.c05 import ALIASES
+
+    for name, (kind, size, info) in sorted(ALIASES.items()):
+        if kind in ("leb", "void"):
+            continue
+        for align in (False, True):
+            yield {"alias": name, "kind": kind, "size": size, "align": align, "compiled": len(name) % 2 == 0}
+
+
+def _run_alias(case, ctx):
+    """Every name of the built-in typedef table (multi-word spellings included) as a member, an array element and under
+    sizeof: width from the name, natural alignment (24-bit -> 4, 48-bit -> 8, 128-bit -> 16)."""
+    from pbt.drive import import_repo
+
+    m = import_repo()
+    name, size, align = case["alias"], case["size"], case["align"]
+    cs = m.cstruct()
+    if name not in cs.typedefs:
+        ctx.count("alias:name-not-in-library")
+        return
+    al = {3: 4, 6: 8}.get(size, size) if align else 1
+    text = f"struct Root {{ uint8 c; {name} x; {name} y[2]; uint8 z; char probe[sizeof({name})]; }};"
+    r = lib(cs.load, text, compiled=case["compiled"], align=align)
+    if isinstance(r, Err):
+        raise Violation("definition-rejected", f"{text} align={align}: {r}", r.where)
+    T = cs.Root
+    ox = -(-1 // al) * al
+    oy = ox + size + (-(ox + size) % al)
+    oz = oy + 2 * size
+    op = oz + 1
+    total = op + size
+    total += -total % al
+    want = {"x": ox, "y": oy, "z": oz, "probe": op, "size": total, "len(probe)": size}
+    got = {"x": T.fields["x"].offset, "y": T.fields["y"].offset, "z": T.fields["z"].offset, "probe": T.fields["probe"].offset, "size": lib(len, T), "len(probe)": lib(len, T.fields["probe"].type)}
+    if got != want:
+        raise Violation("layout-differs", f"{text} align={align}: {got}, a {size}-byte type aligned to {al} gives {want}")
+    data = bytes(range(1, total + 9))
+    s_ = io.BytesIO(data)
+    obj = lib(T, s_)
+    if isinstance(obj, Err) or s_.tell() != total or lib(lambda: len(obj.dumps())) != total:
+        raise Violation("size-disagreement:number", f"{text} align={align}: parse {obj!r} consumed {s_.tell()}, dumps {lib(lambda: len(obj.dumps()))!r}, declared {total}")
+    ctx.count(f"alias:{case['kind']}:{size}")
+    ctx.mark_nontrivial([name, align])
+    if align:
+        ctx.sample({"alias": name, "size": size, "offsets": want}, "alias")
+
+
 def selfcheck():
     """ctypes agrees with the reference layout on a fixed family (validity of the reference; exit 2 otherwise)."""
     for align in (False, True):
@@ -345,4 +418,5 @@ def stages(tier):
         EnumStage("sequences", seq_cases(3 if q else 4), shards=6 if q else 16, scope=f"all sequences of <= {3 if q else 4} fields over 12 base kinds x {{packed, aligned}}"),
         HypStage("nested", fixed_case, examples=500 if q else 4000, shards=8 if q else 16),
         HypStage("reuse", reuse_case, examples=300 if q else 2500, shards=4 if q else 8),
+        EnumStage("aliases", alias_cases, shards=2, scope="every fixed-width name of the built-in typedef table x {packed, aligned}: member, array element, sizeof"),
     ]
